@@ -702,6 +702,7 @@ def swap_task(task):
 
 def many_task(task):
     n, prop = task
+    tier_quick = os.environ.get("VERIF_TIER_THOROUGH") != "1"
     s = sc.Scratch("many")
     try:
         real = Real(s)
@@ -726,6 +727,15 @@ def many_task(task):
             got = None if d is None else [c["path"] for c in d.get("changes") or []]
             if got != all_pending:
                 v.append(("change-set-wrong", "%d pending paths: reported %s..., expected %s..." % (n, (got or [])[:5], all_pending[:5])))
+            if n >= 200:
+                # recorded as pending, then asked again by a process that may hold only few files open at a time:
+                # every path still has its recorded checksum, so nothing is reported
+                real.apply(["CPUP"])
+                dl = r.mr("analyze", "--changes", nofile=64).json()
+                evals += 1
+                gl = None if dl is None else [c["path"] for c in dl.get("changes") or []]
+                if gl != []:
+                    v.append(("change-set-wrong", "%d pending paths recorded by update -p, analyze --changes under a descriptor limit of 64: %s paths reported (%s...), expected none" % (n, None if gl is None else len(gl), (gl or [])[:3])))
         else:
             real.apply(["CPUP"])
             v += [x for x in real.update_defects]
@@ -743,6 +753,13 @@ def many_task(task):
                 evals += 1
                 if d is None or d.get("targets") != []:
                     v.append(("targets-after-pending-update", "%d pending paths recorded by update -p: analyze reports %s" % (n, d and d.get("targets"))))
+                if n >= 200:
+                    # the same question asked by a process that may hold only few files open at a time
+                    for lim in ((64,) if tier_quick else (64, 256)):
+                        dl = r.mr("analyze", "--changes", nofile=lim).json()
+                        evals += 1
+                        if dl is None or (dl.get("changes") or []) != [] or dl.get("targets") != []:
+                            v.append(("targets-after-pending-update", "%d pending paths recorded by update -p, analyze under a descriptor limit of %d: %d changes reported, targets %s" % (n, lim, len((dl or {}).get("changes") or []), dl and dl.get("targets"))))
                 for p in [names[0], names[-1], "a/f.txt"]:
                     saved = open(r.path(p), "rb").read()
                     r.write(p, saved + b"edited\n")
@@ -933,6 +950,54 @@ def ignored_paths_task(variant):
         s.cleanup()
 
 
+def outdir_sibling_task(variant):
+    """A target whose name merely BEGINS with the name of the output directory (`monorail-outpost` next to
+    the default `monorail-out`; `outer` next to a configured `out`) is a target like any other: its dirty
+    files are pending at `update -p`, nothing is changed afterwards, a later edit re-flags it."""
+    s = sc.Scratch("osib")
+    try:
+        sib, od = ("monorail-outpost", None) if variant == "default" else ("outer", "out")
+        ts = [{"path": "app"}, {"path": sib, "uses": ["app/api"]}]
+        r = sc.Repo(s, "r", ts, commands={t["path"]: {"build": "x"} for t in ts}, cfg_extra={"out_dir": od} if od else None,
+                    files={".gitignore": "%s\n" % (od or "monorail-out")})
+        v = []
+        evals = 0
+        if r.mr("checkpoint", "update").code != 0:
+            raise common.EngineError("checkpoint update failed")
+        r.write(sib + "/f.txt", "modified\n")
+        r.write(sib + "/new.txt", "untracked\n")
+        r.write("app/new.txt", "untracked\n")
+
+        def targets():
+            d = r.mr("analyze").json()
+            return None if d is None else d.get("targets")
+        if targets() != ["app", sib]:
+            v.append(("edit-flags-wrong-targets", "[%s] before the update analyze reports %s" % (variant, targets())))
+        if r.mr("checkpoint", "update", "-p").code != 0:
+            v.append(("update-failed", "[%s] update -p failed" % variant))
+        t = targets()
+        evals += 2
+        if t != []:
+            v.append(("targets-after-pending-update", "[%s] analyze right after update -p reports %s (target %s only shares a name prefix with the output directory)" % (variant, t, sib)))
+        r.clear_traces()
+        res = r.mr("run", "-c", "build", env=r.trace_env())
+        if res.code != 0 or r.traces():
+            v.append(("run-executes-after-pending-update", "[%s] run after update -p started %d executables" % (variant, len(r.traces()))))
+        r.write(sib + "/f.txt", "modified again\n")
+        t = targets()
+        evals += 2
+        if t != [sib]:
+            v.append(("edit-not-reflagged", "[%s] editing %s/f.txt after update -p: analyze reports %s" % (variant, sib, t)))
+        return {"violations": [{"sig": sig, "detail": d, "rank": 66, "case": {"osib_case": variant}} for sig, d in v],
+                "evals": evals, "obs": None, "nontrivial": 1}
+    except common.EngineError as e:
+        return {"engine_error": "%s (out_dir sibling, %s)" % (e, variant)}
+    except Exception:
+        return {"engine_error": "out_dir sibling %s: %s" % (variant, traceback.format_exc()[-1200:])}
+    finally:
+        s.cleanup()
+
+
 def unborn_task(kind):
     """HEAD resolves to no commit (a repository without commits, or an orphan branch after a real
     checkpoint): an update without --id has nothing to record, so it must fail and leave the store
@@ -1044,7 +1109,7 @@ def state_task(task):
 
 RULES = {
     "C02": "plus changed paths covered by a target's ignores entries (modified, deleted, untracked, named exactly), in every output mode, uncommitted and as a commit range; plus wholly untracked directories (5 places: inside a target, nested three deep, name with a space / non-ASCII, outside every target) whose files must be listed one by one; plus 9 sequences with surroundings outside the model (records of earlier successful / failed runs on disk, a log tail listener attached); plus an odd-file-name family (18 names: leading/trailing spaces, tab, newline, quote, backslash, non-ASCII, 200 characters, leading dash, glob characters), each untracked and tracked-modified; plus a many-pending-paths family (1..40 and 1000 paths in quick, up to 2500 in thorough, of mixed sizes, untracked / staged / modified / deleted at once); plus the size family of C07 judged on the reported change list (a pending file edited beyond a buffer/read boundary must be listed, restored content must be filtered); explicit-state BFS over operation sequences {write(p,c), delete(p), mv, git mv, add -A, commit, checkpoint update [-p] [--id k], checkpoint delete, out delete --all} on paths {a/f.txt, 'b/n e-acute.txt', b/m.txt}; state = (commits, index, worktree, checkpoint) with commit ids canonicalised to indices; each new state is materialised in a real repository (real git, real monorail) and, when a checkpoint exists, `analyze --changes` for the default range, every ordered pair of commits as --begin/--end, and every commit as --begin alone (.. working tree) and as --end alone (checkpoint ..) must equal the statement's set, also after every file was rewritten with the bytes it already had and a new mtime (content differs from base, plus untracked, minus pending-checksum matches), verbatim and sorted",
-    "C07": "plus wholly untracked directories (5 places) pending at update -p: a new file, a changed file and a new file in a subdirectory must each re-flag; plus 9 sequences with surroundings outside the model (records of earlier successful / failed runs on disk, a log tail listener attached); plus an odd-file-name family (18 names: leading/trailing spaces, tab, newline, quote, backslash, non-ASCII, 200 characters, leading dash, glob characters), each untracked and tracked-modified; plus a many-pending-paths family (1..40 and 1000 paths in quick, up to 2500 in thorough, of mixed sizes, untracked / staged / modified / deleted at once); plus the update-pair family of C19 judged on `analyze` after the second update -p; plus a size family: a pending file (untracked / modified / staged) of each size around the checksum buffer and read boundaries (65535..65537, 200000, 2 MiB+1; thorough more) must be clean after update -p and re-flagged by a one-byte edit at each boundary offset, an append and a truncation; same BFS; in every state reached by `checkpoint update -p`: analyze reports no targets and run starts nothing; then from that state every single later edit (fresh content for each path, new files, deletion of committed files; thorough: every pair) must re-flag exactly the targets of the edited paths, and a second update -p must clear them",
+    "C07": "plus targets whose names only begin with the name of the output directory; plus analysis under a file descriptor limit of 64 / 256 with 1000 pending paths; plus wholly untracked directories (5 places) pending at update -p: a new file, a changed file and a new file in a subdirectory must each re-flag; plus 9 sequences with surroundings outside the model (records of earlier successful / failed runs on disk, a log tail listener attached); plus an odd-file-name family (18 names: leading/trailing spaces, tab, newline, quote, backslash, non-ASCII, 200 characters, leading dash, glob characters), each untracked and tracked-modified; plus a many-pending-paths family (1..40 and 1000 paths in quick, up to 2500 in thorough, of mixed sizes, untracked / staged / modified / deleted at once); plus the update-pair family of C19 judged on `analyze` after the second update -p; plus a size family: a pending file (untracked / modified / staged) of each size around the checksum buffer and read boundaries (65535..65537, 200000, 2 MiB+1; thorough more) must be clean after update -p and re-flagged by a one-byte edit at each boundary offset, an append and a truncation; same BFS; in every state reached by `checkpoint update -p`: analyze reports no targets and run starts nothing; then from that state every single later edit (fresh content for each path, new files, deletion of committed files; thorough: every pair) must re-flag exactly the targets of the edited paths, and a second update -p must clear them",
     "C19": "plus HEAD resolving to no commit (repository without commits; orphan branch after a real checkpoint): update must fail and leave the store as it was; plus 9 sequences with surroundings outside the model (records of earlier successful / failed runs on disk, a log tail listener attached); plus a many-pending-paths family (1..40 and 1000 paths in quick, up to 2500 in thorough, of mixed sizes, untracked / staged / modified / deleted at once); plus an update-pair family: worktree set to pending configuration S1 (each of a/f.txt, b/m.txt, a/g.txt absent or with one of two contents), `update -p`, worktree set to S2, second update (-p or plain) for every pair (S1,S2) (quick: at most two pending paths each): show must equal what the second update printed; same BFS; from every state (quick: every state whose last operation touched the store) a suffix probe update, update -p, delete: show follows each update and afterwards no checkpoint exists; in every state `checkpoint show` must equal what the last successful update printed (or fail when deleted / never set); updates must record HEAD or the given --id; without a checkpoint analyze reports checkpointed=false with every target and run covers every target",
     "C05": "plus 9 sequences with surroundings outside the model (records of earlier successful / failed runs on disk, a log tail listener attached); same BFS (part B of C05): in every state `analyze --target-groups` then `run -c build` in trace mode must agree on groups and started targets",
 }
@@ -1128,6 +1193,13 @@ def bfs(prop, tier, depth, wall_cap=None):
             agg["evaluations"] += r["evals"]
             agg["violations"].extend(r["violations"])
         agg["ignored_path_cases"] = 2
+    if prop == "C07":
+        for r in common.pmap(outdir_sibling_task, ["default", "custom"]):
+            if "engine_error" in r:
+                raise common.EngineError(r["engine_error"])
+            agg["evaluations"] += r["evals"]
+            agg["violations"].extend(r["violations"])
+        agg["out_dir_sibling_cases"] = 2
     if prop == "C19":
         for r in common.pmap(unborn_task, ["no-commits", "orphan-branch"]):
             if "engine_error" in r:
@@ -1239,8 +1311,8 @@ def run(prop, tier):
 
 def replay(prop, path):
     body = json.load(open(path))
-    if "unborn_case" in body["case"] or "ign_case" in body["case"]:
-        r1 = unborn_task(body["case"]["unborn_case"]) if "unborn_case" in body["case"] else ignored_paths_task(body["case"]["ign_case"])
+    if "unborn_case" in body["case"] or "ign_case" in body["case"] or "osib_case" in body["case"]:
+        r1 = unborn_task(body["case"]["unborn_case"]) if "unborn_case" in body["case"] else ignored_paths_task(body["case"]["ign_case"]) if "ign_case" in body["case"] else outdir_sibling_task(body["case"]["osib_case"])
         if "engine_error" in r1:
             print("ENGINE:", r1["engine_error"])
             return 2
